@@ -271,9 +271,22 @@ def run_shard(ctx, prm):
         rec.mon('example_file', 0)
 
     # ---- generated files
+    nbig = 1 if ctx.tier == 'quick' else 12
     for n in range(prm['files']):
-        data, model = G.random_file(rng)
+        if n < nbig:
+            # data blocks larger than 64 KiB (block size is bounded only by the TIF marker words)
+            nch = rng.choice([1, 7, 16, 20])
+            per = 65536 // (4 * nch) + rng.choice([1, 2, 17, 400, 1500])
+            bf = [per] * rng.choice([1, 2]) + [rng.randrange(1, per)]
+            passes = [G.random_pass(rng, channels=nch, block_frames=bf, unique_values=False)]
+            if rng.random() < 0.5:
+                passes.append(G.random_pass(rng))
+            data, model = G.write_file(passes)
+        else:
+            data, model = G.random_file(rng)
         classes = ['passes=%d' % len(model.passes)]
+        if any(4 * p.channels * max(p.block_frames or [0]) > 65536 for p in model.passes):
+            classes.append('data-block>64KiB')
         nontrivial = False
         for p in model.passes:
             classes.append('down-log' if p.increasing else 'up-log')
